@@ -1,4 +1,5 @@
 import CanvasModel.Region
+import CanvasModel.C14.Tables
 /-!
 C14 — rasterization. Core-only models and the exact pixel specification.
 
@@ -85,6 +86,62 @@ def gradArgX (dpmm : α) (c : Int) : α := (Scalar.ofInt c + Scalar.half) / dpmm
 /-- … and the ordinate for pixel row r: `(float64(size.Y)-float64(y)-0.5)/dpmm` -/
 def gradArgY (dy dpmm : α) (r : Int) : α := (dy - Scalar.ofInt r - Scalar.half) / dpmm
 end G
+
+/-! ### the canvas → scanner pipeline, written once over the matrix operations
+
+`Canvas.RenderViewTo` hands `view.Mul(l.m)` to the renderer, `Rasterizer.RenderPath` transforms the
+path by it (`Path.Transform`: `m.Dot` on every coordinate pair), `Path.ToScanxScanner` maps to pixel
+space and `fixedPoint26_6` rounds to the 26.6 grid. `mul`/`dot` are instantiated with the L1
+translations of `Matrix.Mul`/`Matrix.Dot` (regenerated from util.go on every run): at `Float` in the
+driver, over any ordered field in the proofs. -/
+
+def pipelinePt {α : Type} (mul : Mat α → Mat α → Mat α) (dot : Mat α → Pt α → Pt α)
+    (px : α → α → α) (py : α → α → α → α) (view m : Mat α) (dy dpmm : α) (p : Pt α) : Pt α :=
+  let q := dot (mul view m) p
+  ⟨px dpmm q.x, py dy dpmm q.y⟩
+
+/-- Context.CoordSystemView (canvas.go): the four coordinate systems as matrices, built from the
+translated `ReflectXAbout` / `ReflectYAbout` (passed in) -/
+def coordSystemView {α : Type} (ident : Mat α) (reflXAbout reflYAbout : Mat α → α → Mat α)
+    (halfW halfH : α) : Nat → Mat α
+  | 1 => reflXAbout ident halfW                           -- CartesianII
+  | 2 => reflYAbout (reflXAbout ident halfW) halfH        -- CartesianIII
+  | 3 => reflYAbout ident halfH                           -- CartesianIV
+  | _ => ident                                            -- CartesianI
+
+/-! ### compositing: srwiley/scanx ImgSpanner.SpanFgColor (draw.Over), one channel
+
+c, ca: the paint's premultiplied channel and alpha as 16-bit values (`color.RGBA.RGBA()` = 8 bit × 257),
+ma: the 16-bit coverage, d: the 8-bit destination channel. All arithmetic is uint32 in the code. -/
+
+def m16 : Nat := 65535
+def mp16 : Nat := 256 * 65535
+
+def spanBlend (c ca ma d : Nat) : Nat :=
+  if ca * ma = m16 * m16 then c * ma / mp16
+  else (d * ((m16 - ca * ma / m16) * 257) + c * ma) / mp16
+
+/-- the value before the final division (must stay below 2^32 in the code) -/
+def spanBlendNum (c ca ma d : Nat) : Nat := d * ((m16 - ca * ma / m16) * 257) + c * ma
+
+structure Px8 where
+  r : Nat
+  g : Nat
+  b : Nat
+  a : Nat
+deriving Repr, DecidableEq
+
+/-- one draw (premultiplied 8-bit paint) over a pixel at coverage ma -/
+def blendPx (src : Px8) (ma : Nat) (dst : Px8) : Px8 :=
+  let ca := src.a * 257
+  ⟨spanBlend (src.r * 257) ca ma dst.r, spanBlend (src.g * 257) ca ma dst.g,
+   spanBlend (src.b * 257) ca ma dst.b, spanBlend ca ca ma dst.a⟩
+
+/-- replay of fully covering draws, first to last, over a transparent pixel -/
+def composite (draws : List Px8) : Px8 := draws.foldl (fun d s => blendPx s m16 d) ⟨0, 0, 0, 0⟩
+
+/-- ideal source-over of premultiplied (colour, alpha) pairs -/
+def over (s d : Rat × Rat) : Rat × Rat := (s.1 + d.1 * (1 - s.2), s.2 + d.2 * (1 - s.2))
 
 instance : Scalar Rat where
   ofInt i := (i : Rat)
@@ -390,6 +447,8 @@ def parseNatList (ts : List String) : Option (List Nat) := ts.mapM (·.toNat?)
   SIZE w h dpmm                     → wpx hpx
   SCAN hpx dpmm x y                 → fixed X, fixed Y
   SCSH <linear 0/1> <k> geom×k <n> (offset colour)×n MAP f(colour)×n → geometry | stops of the RESULT of one call in a history
+  CSP srgb|gamma22 to|from v        → the 8-bit conversion of an opaque channel (complete tables)
+  COMP n (r g b a)×n                → the pixel after n fully covering semi-transparent draws
   GRAD hpx dpmm c r                 → the (x, y) handed to gradient.At for pixel column c, row r
   SCS <linear 0/1> <n> <off> <len> <cap> stops… MAP f(stops)…  → caller's stops afterwards | returned stops
   PIX …
@@ -473,6 +532,24 @@ def handle : List String → Option String
     let v := g'.value m'
     let fmt (l : List (String × Nat)) := " ".intercalate (l.map fun p => s!"{p.1} {p.2}")
     pure (s!"{" ".intercalate v.1} | {fmt v.2}").trim
+  | ["CSP", space, dir, v] => do
+    let v ← v.toNat?
+    let t ← (match space, dir with
+      | "srgb", "to" => some Tables.srgbToLinear | "srgb", "from" => some Tables.srgbFromLinear
+      | "gamma22", "to" => some Tables.gamma22ToLinear | "gamma22", "from" => some Tables.gamma22FromLinear
+      | _, _ => none)
+    let r ← t[v]?
+    pure (toString r)
+  | "COMP" :: n :: ts => do
+    -- n fully covering draws (premultiplied r g b a), first to last → the pixel
+    let n ← n.toNat?
+    let vs ← parseNatList ts
+    if vs.length != 4 * n then none else
+    let rec quads : List Nat → List Px8
+      | r :: g :: b :: a :: rest => ⟨r, g, b, a⟩ :: quads rest
+      | _ => []
+    let px := composite (quads vs)
+    pure s!"{px.r} {px.g} {px.b} {px.a}"
   | "PIX" :: ts => handlePix ts
   | "REGION" :: ts => Canvas.Region.handle ts
   | _ => none
